@@ -135,6 +135,30 @@ def r_F18():
     return any('raised an exception' in str(x.message) for x in w)
 
 
+def r_F19():
+    import time
+    import prettyprinter as pp
+
+    class Unparsable:
+        pass
+    good = time.struct_time((2020, 1, 2, 3, 4, 5, 3, 2, -1))
+    with warnings.catch_warnings():
+        warnings.simplefilter('ignore')
+        before = pp.pformat(good)
+        pp.pformat(time.struct_time((Unparsable(), 1, 2, 3, 4, 5, 3, 2, -1)))
+        after = pp.pformat(good)
+        # the other direction: the unparsable one printed first in a state where nothing is remembered must equal its later print
+    return before != after
+
+
+def r_K7():
+    import prettyprinter as pp
+
+    class D7(dict):
+        pass
+    return '{' in pp.pformat(pp.trailing_comment(D7(), 'x')) and '{' not in pp.pformat(D7())
+
+
 def r_F7():
     import enum
     import prettyprinter as pp
@@ -307,6 +331,8 @@ def match_known(prop, failing, known):
         return 'K2'
     if 'K5' in ids and kind == 'depth-str-key-printed-in-full':
         return 'K5'
+    if 'K7' in ids and kind == 'syntax-tree-differs-from-uncommented' and failing.get('empty_dict_subclass_with_trailing_comment'):
+        return 'K7'
     if 'K6' in ids and kind == 'pytz-dst-variant-not-reconstructible':
         return 'K6'
     if 'K3' in ids and kind == 'cost-family' and failing.get('family') == 'commented_dict_values':
